@@ -49,6 +49,12 @@ func zzC12Sched() {
 			vAssert(cc.watchers >= 1 && cc.watchers <= cc.maxWorkers, "worker count outside [1, maxWorkers] while a callback runs")
 			close(r.done)
 		}, time.Duration(d))
+		// the bookkeeping of a future, too, is only touched under the package lock
+		vGuardedBy(&r.fu.(*future).idx, &cc.lock)
+		// optionally let this one fire before the script goes on: a later Cancel of the spent handle must be a no-op
+		if vParam("WAITFIRED") == 1 && i < NC-1 && !r.never && vChoose("waitFired", 2) == 1 {
+			<-r.done
+		}
 		// optionally cancel one of the futures scheduled so far (possibly repeatedly, possibly after it fired)
 		if vParam("CANCEL") == 1 && vChoose("cancel", 2) == 1 {
 			j := vChoose("which", i+1)
